@@ -4,6 +4,7 @@ use konst::array::{ArrayBuilder, ArrayConsumer};
 use serde_json::json;
 use std::cell::RefCell;
 use std::mem::ManuallyDrop;
+use std::io::Write as _;
 
 thread_local! {
     /// per id (1-based): (created, dropped)
@@ -165,4 +166,77 @@ pub fn replay(s: &mut Summary, v: &V) {
         4 => run::<4>(s, v),
         n => panic!("unsupported N {n}"),
     }
+}
+
+
+/// random long histories on one or two containers of capacity N; every event logs the projected state:
+/// {ev:"init",scen} | {ev:op, o:"a"|"b", a:{kind,win}, b:{kind,win}, handed:[ids..], dropped:[0/1..]}
+fn record_n<const N: usize>(rng: &mut rand::rngs::SmallRng, n_events: usize, out: &mut dyn std::io::Write) {
+    use rand::Rng;
+    let mut left = n_events;
+    while left > 0 {
+        ledger_reset();
+        let consumer = rng.gen_bool(0.6);
+        let mut caller: Vec<L> = Vec::new();
+        let mut objs: [Obj<N>; 2] = [Obj::None, Obj::None];
+        objs[0] = if consumer { Obj::C(ArrayConsumer::new(std::array::from_fn(|_| L::new()))) } else { Obj::B(ArrayBuilder::new()) };
+        writeln!(out, "{}", json!({"ev": "init", "scen": if consumer { "consumer" } else { "builder" }})).unwrap();
+        left -= 1;
+        for _ in 0..rng.gen_range(1..60) {
+            if left == 0 { break; }
+            let i = rng.gen_range(0..2usize);
+            let nm = if i == 0 { "a" } else { "b" };
+            // pick an operation that is enabled in this state
+            let op: &str = match &objs[i] {
+                Obj::None => continue,
+                Obj::C(c) => {
+                    let empty = c.as_slice().is_empty();
+                    match rng.gen_range(0..10) {
+                        0..=3 => if empty { "next_none" } else { "next" },
+                        4..=6 => if empty { "next_none" } else { "next_back" },
+                        7 => if matches!(objs[1 - i], Obj::None) { "clone" } else { "next_none_or_skip" },
+                        8 => if empty { "assert_is_empty" } else { "drop" },
+                        _ => "drop",
+                    }
+                }
+                Obj::B(b) => match rng.gen_range(0..10) {
+                    0..=5 => if b.is_full() { "build" } else { "push" },
+                    6 | 7 => if matches!(objs[1 - i], Obj::None) { "clone" } else { "drop" },
+                    8 => if b.is_full() { "build" } else { "drop" },
+                    _ => "drop",
+                },
+            };
+            if op == "next_none_or_skip" { continue; }
+            let before = caller.len();
+            match op {
+                "next" | "next_back" | "next_none" => if let Obj::C(c) = &mut objs[i] {
+                    let r = if op == "next_back" { c.next_back() } else { c.next() };
+                    if let Some(x) = r { caller.push(ManuallyDrop::into_inner(x)); }
+                },
+                "clone" => { let n = match &objs[i] { Obj::C(c) => Obj::C(c.clone()), Obj::B(b) => Obj::B(b.clone()), Obj::None => Obj::None }; objs[1 - i] = n; }
+                "drop" => { objs[i] = Obj::None; }
+                "assert_is_empty" => { if let Obj::C(c) = std::mem::replace(&mut objs[i], Obj::None) { c.assert_is_empty(); } }
+                "push" => { if let Obj::B(b) = &mut objs[i] { b.push(L::new()); } }
+                "build" => { if let Obj::B(b) = std::mem::replace(&mut objs[i], Obj::None) { caller.extend(b.build()); } }
+                _ => unreachable!(),
+            }
+            let mut intact = true;
+            let ob = |o: &Obj<N>, intact: &mut bool| match o {
+                Obj::C(c) => json!({"kind": "consumer", "win": ids(c.as_slice(), intact)}),
+                Obj::B(b) => json!({"kind": "builder", "win": ids(b.as_slice(), intact)}),
+                Obj::None => json!({"kind": "none", "win": []}),
+            };
+            let (a, b) = (ob(&objs[0], &mut intact), ob(&objs[1], &mut intact));
+            let handed: Vec<u32> = caller[before..].iter().map(|x| x.id).collect();
+            for x in &caller[before..] { intact &= x.intact(); }
+            let snap = ledger_snapshot();
+            writeln!(out, "{}", json!({"ev": op, "o": nm, "a": a, "b": b, "handed": handed,
+                "dropped": snap.iter().map(|x| x.1).collect::<Vec<_>>(), "intact": intact as u8})).unwrap();
+            left -= 1;
+        }
+    }
+}
+pub fn record(n: usize, rng: &mut rand::rngs::SmallRng, n_events: usize, out: &mut dyn std::io::Write) {
+    use std::io::Write as _;
+    match n { 5 => record_n::<5>(rng, n_events, out), _ => record_n::<8>(rng, n_events, out) }
 }
